@@ -124,3 +124,23 @@ pub fn evalctx_line(l: &str) -> String {
     }
     outs.join(" ;; ")
 }
+
+/// Stream `intfn`: `roman N` | `words N` | `char N` through the public API; text as hex code points.
+pub fn intfn_line(l: &str) -> String {
+    let ws: Vec<&str> = l.trim().split(' ').collect();
+    if ws.len() != 2 { return "bad-op".into(); }
+    let src = match ws[0] {
+        "roman" => format!("{} to roman", ws[1]),
+        "words" => format!("{} to words", ws[1]),
+        "char" => format!("{} to char", ws[1]),
+        _ => return "bad-op".into(),
+    };
+    let mut c = ctx();
+    match guarded(|| fend_core::evaluate(&src, &mut c)) {
+        Ok(Ok(v)) => format!("ok {}", show_cps(v.get_main_result())),
+        Ok(Err(e)) => format!("err {}", if e.contains("must lie in the interval") { "outOfRange" }
+            else if e.starts_with("zero cannot be represented") { "romanZero" }
+            else if e.starts_with("invalid codepoint") { "invalidCodepoint" } else { "other" }),
+        Err(_) => "err panic".into(),
+    }
+}
